@@ -250,8 +250,10 @@ def oracle_signature(case: Any, obs: Any) -> Optional[str]:
     if base[0] != 1:
         return None
     if got[0] != 1:
-        if '\xa0' in payload and kind in ('str', 'dictkey', 'nested'):
-            return None      # known: NO-BREAK SPACE makes the re-parse path fail (C10-nbsp-reparse)
+        if kind in ('str', 'dictkey', 'nested') and ('\xa0' in payload or any(ord(c) >= 32 and ILLEGAL1.match(c) for c in payload)):
+            # known: NO-BREAK SPACE makes the re-parse path fail (C10-nbsp-reparse); U+FFFE / U+FFFF are not XML
+            # characters and not control characters: set aside
+            return None
         return 'the signature with the default value %s is dropped: %r' % (case[1][0], got[1])
     ge, ga, _ = stan_names(got[1])
     be, ba, _ = stan_names(base[1])
@@ -429,6 +431,13 @@ def project(fmt: str, pl: Dict[str, Any]) -> Dict[str, Any]:
             r(pl['annot']), r(pl['default']), r(pl['default2']), r(pl['const']), r(pl['default'])),
         '    ' + r(doc),
     ]
+    bts = r(pl['bytes'].encode('utf-8', 'replace'))
+    init += ['def rawdefault(code=%s, *args, fallback=%s, number=1.5, flag=None) -> bytes:' % (bts, bts),
+             '    ' + r('Bytes defaults %s.' % pl['doc6']),
+             'class D:',
+             '    ' + r('Class with bytes defaults.'),
+             '    def run(self, code=%s, /, *, fallback=(%s, 2)) -> None:' % (bts, bts),
+             '        ' + r('Run.')]
     init += ['def links():', '    ' + r('Links summary.\n\n' + markup_doc(fmt, pl))]
     if pl.get('extra') is not None:
         # one more docstring, taken as it is (dedicated projects for classes of docstring markup)
@@ -777,7 +786,7 @@ class Check(PropertyCheck):
             w = v.what
             sev = 0 if ("'script'" in w or "'zzq'" in w or "'img'" in w) else 1 if ("'a'" in w or 'became markup' in w) else 2
             return (sev, len(json.dumps(v.case)))
-        for fn in (10, 15):
+        for fn in (10, 15, 16):
             grp = [v for v in out if v.kind == 'oracle' and isinstance(v.case, list) and v.case and v.case[0] == fn]
             if len(grp) > 1:
                 keep = sorted(grp, key=rank)[:1]
@@ -1116,7 +1125,8 @@ class Check(PropertyCheck):
             pl = self.benign(fmt)
             pl.update(lab0='<img src="x" onerror="zzattr()"/>', lab1='the <b>old</b> one', lab2='<zzq onzz="1"/>',
                       lab3='x--<zzq>x</zzq>', com='old --> <script>zzq()</script>', sub='<b>x</b> --> <zzq/>',
-                      foot=']]> <zzq onzz="1"/>', tgt='<zzq/>')
+                      foot=']]> <zzq onzz="1"/>', tgt='<zzq/>', bytes='<img src="x" onerror="zzattr()"/><script>zzq()</script>',
+                      default='<zzq onzz="1"/>', default2='<b>x</b>', const='<zzq/>')
             jobs.insert(0, {'kind': 'strict', 'fmt': fmt, 'payloads': pl})
         # classes of docstring MARKUP that reach the page as live script (known findings on the unchanged tree)
         for fmt, cls, text in [
